@@ -882,6 +882,19 @@ def run(R: Run):
         case = gen_case(rng, rotated=(i % 6 == 5))
         corr_xr(R, ns, rng, case, dts[i % len(dts)])
 
+    # 2b. placements where a destination pixel centre maps exactly onto the source's x=0 / y=0 line
+    # (half-pixel shifted grids): GDAL's answer depends on the row length -> known finding
+    for i in range(R.pick(12, 120)):
+        sw, dw = rng.randint(2, 6), rng.randint(6, 10)
+        k = rng.randint(1, dw - 2)  # destination column whose centre maps onto x=0 of the source
+        a = rng.choice([F(1), F(1), F(2), F(1, 2)])
+        case = _w(rng.randint(1, 4), sw, rng.randint(1, 4), dw, (a, F(0), -a * (k + F(1, 2)), F(0), F(1), F(0)),
+                  None, None, rng.randint(1, 4), rng.randint(1, 4))
+        case["sy"], case["sx"] = compositions(rng, case["sh"]), compositions(rng, sw)
+        dtype = [d for d in dts if d != "bool"][i % (len(dts) - 1)]
+        data = (np.arange(case["sh"] * sw).reshape(case["sh"], sw) % 7 + 1).astype(dtype)
+        oracle_pair(R, ns, case, dtype, data, None, None, "sync", 0, tag="edge0")
+
     # 3. leading time axis, cross CRS, other resampling (oracle only)
     time_axis(R, ns, rng, R.pick(60, 600))
     cross_crs(R, ns, rng, R.pick(80, 900))
